@@ -9,6 +9,7 @@ Line protocol (stateful; mirrors harness/c/c31_mjb.c).  The layout is the genera
   load <edit>*              -> ok len=<n> fnv=<h> nbuf=<n> | reject <warnings> nbuf=<n|-> | fatal <msg> nbuf=… | hazard <kind> nbuf=…
        edits: t<n>  w<off>:<hex>  i<off>:<hex>  d<off>:<n>  z<off>:<n>   (applied in order to the saved image)
   sweep <from> <to> <step>  -> n=<k> reject=<k> other=<len:result of the first non-reject or ->
+  consistent                -> true | false   (Lean side only: `consistentB`, the hypothesis of the C31 theorems)
 -/
 open MjProof MjProof.Driver MjProof.Mjb MjProof.Gen.MjbLayout
 
@@ -136,6 +137,17 @@ def step (st : St) (line : String) : St × String :=
   | ["size"] =>
     match st.cur with
     | some (m, _) => (st, toString (sizeModel layout m))
+    | none => (st, "bad-op")
+  | ["oracle", v] =>
+    -- implementation-side switch (property oracle after an accepted load): no effect on the model
+    if v = "0" ∨ v = "1" then (st, "ok") else (st, "bad-op")
+  | "rule" :: toks =>
+    -- implementation-side configuration of the independent bounds checker: no effect on the model
+    if ¬ toks.isEmpty ∧ toks.all (fun t => (t.splitOn "=").length = 2) then (st, "ok") else (st, "bad-op")
+  | ["consistent"] =>
+    -- Lean side only: the hypothesis `Consistent` of the theorems, evaluated on the current model
+    match st.cur with
+    | some (m, _) => (st, toString (consistentB layout (specialOf layout special) m))
     | none => (st, "bad-op")
   | ["save"] =>
     match st.cur with
